@@ -130,3 +130,28 @@ def _ring_ghosts(args, result, locs):
 
 
 CONTRACTS['makeringlatticeCIJ'].concrete_ghosts = _ring_ghosts
+
+
+# makefractalCIJ, final part (FRAGMENT from `prob = ...` to the return): whatever hierarchical template and exponents the first part built, the
+# returned matrix is 0/1 with an empty diagonal and the reported count is its number of connections.  ASSUMED at entry: ee is an n x n matrix and
+# the template side s equals n (s = 2**mx_lvl = n: arithmetic of the first part, bounded only).  E ** ee is an uninterpreted elementwise power.
+def _setup_fract(eng, st):
+    n = z3.Int('n')
+    st.pc.append(n >= 1)
+    st.env['n'] = n
+    st.env['s'] = n
+    st.ghost['n0'] = n
+    st.env['E'] = z3.Real('E')
+    st.env['ee'] = alloc(st, 2, z3.Const('ee0', A2R), (n, n), REAL)
+    st.env['rng'] = Opaque('rng')
+
+
+CONTRACTS['makefractalCIJ#draw'] = Contract(
+    REF, 'makefractalCIJ', ['mx_lvl', 'E', 'sz_cl', 'seed'], setup=_setup_fract, key='makefractalCIJ#draw', nonlinear='uf',
+    fragment=('prob = 1 / E ** ee * (np.ones((s, s)) - np.eye(s))', 'return (np.array(CIJ, dtype=int), k)'),
+    ensures=[
+        ('reported-count-is-the-number-of-connections', "result(1) == tsum(lam2(lambda x, y: result(0)[x, y], n0), n0)"),
+        ('entries-0-or-1', "forall(lambda x, y: implies(And(inr(x, n0), inr(y, n0)), Or(result(0)[x, y] == 0, result(0)[x, y] == 1)))"),
+        ('empty-diagonal', "forall(lambda x: implies(inr(x, n0), result(0)[x, x] == 0))"),
+        ('size', "shape_is(result(0), n0, n0)"),
+    ])
